@@ -176,6 +176,18 @@ macro_rules! inst {
                     }
                 }
             }
+            /// `Script::from_str(text).deploy_to(g)`: the count, or -1 for Err (text written to `err`).
+            #[export_name = concat!("s", stringify!($n), "_deploy")]
+            pub unsafe extern "C" fn deploy(g: &mut G, p: *const u8, len: usize, err: *mut String) -> isize {
+                let mut s = sodg::Script::from_str(text(p, len));
+                match s.deploy_to(g) {
+                    Ok(n) => n as isize,
+                    Err(e) => {
+                        err.write(format!("{e:#}"));
+                        -1
+                    }
+                }
+            }
             #[export_name = concat!("s", stringify!($n), "_save")]
             pub unsafe extern "C" fn save(g: &G, p: *const u8, len: usize) -> isize {
                 let path = std::str::from_utf8_unchecked(std::slice::from_raw_parts(p, len));
@@ -321,6 +333,11 @@ pub unsafe extern "C" fn hex_inline(out: *mut Hex, bytes: &[u8; 8], len: usize) 
 #[no_mangle]
 pub unsafe extern "C" fn hex_vector(out: *mut Hex, p: *const u8, len: usize) {
     out.write(Hex::Vector(std::slice::from_raw_parts(p, len).to_vec()));
+}
+/// `Hex::from_vec`, the constructor the script parser uses.
+#[no_mangle]
+pub unsafe extern "C" fn hex_from_vec(out: *mut Hex, p: *const u8, len: usize) {
+    out.write(Hex::from_vec(std::slice::from_raw_parts(p, len).to_vec()));
 }
 #[no_mangle]
 pub extern "C" fn hex_view(h: &Hex, p: &mut *const u8) -> usize {
